@@ -283,6 +283,9 @@ class Engine:
     def coerce(self, v, to):
         """Adapt a value to a declared type (None into optionals, refs between classes)."""
         v = lift(v)
+        if to.kind == "tuple" and v.ty.kind == "tuple" and len(to.args) == len(v.t):
+            items = tuple(self.coerce(x, t_) for x, t_ in zip(v.t, to.args))
+            return SV(Ty("tuple", [i.ty for i in items]), items)
         if to.kind == "opt":
             inner = to.args[0]
             if v.ty.kind == "none":
@@ -532,6 +535,16 @@ class Engine:
 
     def binop(self, op, a, b, line):
         a, b = lift(a), lift(b)
+        # arithmetic on an optional: TypeError if it is None (no check in specifications)
+        for nm in ("a", "b"):
+            v = a if nm == "a" else b
+            if v.ty.kind == "opt" and v.ty.args[0].kind in ("int", "str"):
+                self.fail("TypeError", self.is_none(v), line, "none-operand")
+                v = SV(v.ty.args[0], v.t)
+                if nm == "a":
+                    a = v
+                else:
+                    b = v
         ka, kb = a.ty.kind, b.ty.kind
         if ka == "bool":
             a, ka = self.coerce(a, T.INT), "int"
@@ -1496,8 +1509,9 @@ class Engine:
                             alloc = True
                             continue
                         if t.kind == "str":
-                            alloc = True
-                            continue
+                            if f.attr in ("splitlines", "split"):
+                                alloc = True   # returns a fresh list
+                            continue           # strings are values: no heap effect
                         if t.kind == "ref":
                             q = None
                             for c in self.classes.mro(t.cls):
@@ -1649,6 +1663,19 @@ class Engine:
                 self.assign(enum_var, SV(T.INT, i), s.lineno)
             self.st.env[ivar] = SV(T.INT, i + 1)
 
+        # give the loop targets (unknown) values of the right type before the first iteration, so that
+        # the write-effect scan and invariants can type expressions that mention them
+        self.with_state(st)
+        try:
+            if mode[0] == "range":
+                self.assign(tgt, SV(T.INT, fresh("it", z3.IntSort())), s.lineno)
+            else:
+                self.assign(tgt, self.fresh_sv(mode[1].ty.args[0], "it"), s.lineno)
+            if enum_var is not None:
+                self.assign(enum_var, SV(T.INT, fresh("idx", z3.IntSort())), s.lineno)
+        except Unsupported:
+            pass
+        self.fail_conds = []
         extra = [ivar] + [n.id for n in ast.walk(s.target) if isinstance(n, ast.Name)]
         spec = dict(spec)
         spec.setdefault("auto_inv", [])
